@@ -534,6 +534,10 @@ def pinned_reg_cases(transports):
         mk([["n[1-2]"], ["u2@n[3-4]", "n[5-6]"]], excl=ex)
     mk([["u1@n[1-3]", "n[5-6]"]], excl=["n1"])
     mk([["k[9-11]", "u1@h[01-03]"]], excl=["k10", "h02"])
+    # more targets than one batch of threads (fanout 32): the rank is still the position in the list
+    mk([["n[1-40]"]], excl=["n7"])
+    mk([["u1@n[1-20]", t2 + ":n[15-45]"]], l="bob")
+    mk([["h[001-070]"]], excl=["h033", "h001"], cmd=("echo", "%n"))
     return out
 
 
@@ -1476,7 +1480,7 @@ def run(ctx):
                      "rresvport/connect/xpoll/accept are parameters of the xrcmd model (scripted in part (f), the real "
                      "kernel in part (d))",
                      "excluded hosts occur exactly once in the target list (duplicate exclusion is C02's subject)",
-                     "rank fits an int; at most 32 targets per run (one batch of threads)"],
+                     "rank fits an int; at most 70 targets per run (three batches of threads at the default fanout)"],
         trusted_base=["Lean 4.33 kernel", "axioms: propext, Classical.choice, Quot.sound at most (audited per theorem)",
                       "hand-written models Exec/Format.lean, Opt/Rcmd.lean tied to the code by differential execution",
                       "Gen/Modopt.lean regenerated from /repo (RCMD_RANK_LIST)",
